@@ -91,13 +91,14 @@ Section WithCpf.
       destruct H as [Hs Hv]. split; rewrite ?A, ?B, ?C; assumption.
   Qed.
 
-  Lemma ninv_delete nd mn mx : ninv nd -> ninv (snd (node_delete nd mn mx)).
+  Lemma ninv_delete nd mn mx lf : ninv nd -> ninv (snd (node_delete nd mn mx lf)).
   Proof.
     intros [Hs Hv]. unfold node_delete, vdelete_range.
     destruct (delete_range (n_store nd) mn mx) as [s'|] eqn:E; cbn [snd n_store n_shadow n_v].
     - destruct (delete_aligned _ _ _ _ _ Hs (proj2 Hv) E) as [Ha Hw].
       split; [exact Ha|].
-      destruct (last_index (n_store nd) <=? mx) eqn:El; [apply vinv_init; exact Hw|].
+      destruct (lf || (last_index (n_store nd) <=? mx)) eqn:El; [apply vinv_init; exact Hw|].
+      apply Bool.orb_false_elim in El. destruct El as [_ El].
       (* a pure head truncation: the written log and the running sum are untouched *)
       replace (shadow_delete (n_store nd) (n_shadow nd) mn mx) with (n_shadow nd); [exact Hv|].
       unfold shadow_delete. destruct (mx <? mn); [reflexivity|].
@@ -421,15 +422,15 @@ Section WithCpf.
      call (preceded by one LastIndex read, which has no effect); the running sum
      restarts exactly when the deleted range reached that last index, and is
      left alone by head truncations *)
-  Theorem passthrough_delete nd mn mx :
+  Theorem passthrough_delete nd mn mx lf :
     match delete_range (n_store nd) mn mx with
-    | Some s' => node_delete nd mn mx = (true, snd (node_delete nd mn mx)) /\
-                 n_store (snd (node_delete nd mn mx)) = s' /\
-                 n_v (snd (node_delete nd mn mx)) =
-                   (if last_index (n_store nd) <=? mx then v_init else n_v nd)
-    | None => fst (node_delete nd mn mx) = false /\
-              n_store (snd (node_delete nd mn mx)) = n_store nd /\
-              n_v (snd (node_delete nd mn mx)) = n_v nd
+    | Some s' => node_delete nd mn mx lf = (true, snd (node_delete nd mn mx lf)) /\
+                 n_store (snd (node_delete nd mn mx lf)) = s' /\
+                 n_v (snd (node_delete nd mn mx lf)) =
+                   (if lf || (last_index (n_store nd) <=? mx) then v_init else n_v nd)
+    | None => fst (node_delete nd mn mx lf) = false /\
+              n_store (snd (node_delete nd mn mx lf)) = n_store nd /\
+              n_v (snd (node_delete nd mn mx lf)) = n_v nd
     end.
   Proof.
     unfold node_delete, vdelete_range. destruct (delete_range (n_store nd) mn mx); cbn; auto.
@@ -438,7 +439,7 @@ Section WithCpf.
   (* reads never involve the middleware state, and no verifier step (send,
      receive + verify, ReportFn return, restart) changes the store *)
   Theorem passthrough_other nd ev :
-    match ev with HStore _ _ | HDelete _ _ _ | HTamper _ _ _ => True
+    match ev with HStore _ _ | HDelete _ _ _ _ | HTamper _ _ _ => True
     | _ => n_store (node_step cpf nd ev) = n_store nd end.
   Proof.
     destruct ev; cbn [node_step]; auto.
